@@ -1,4 +1,5 @@
 import PsVerif.Model.Upgrade
+import PsVerif.Gen.Startup
 /-
 C29  The database version changes only when no swap is active.
 
@@ -82,6 +83,35 @@ theorem C29_terminal_iff_no_edges :
 theorem C29_finished_states :
     St.all.filter isFinished = [.State_ClaimedCoop, .State_ClaimedCsv, .State_ClaimedPreimage, .State_SwapCanceled] := by
   decide
+
+/-! ### the gate in the start-up sequence of the two daemons (regenerated go/ast facts)
+
+`SafeUpgrade` decides correctly (theorems above) — but "otherwise startup FAILS and the stored version and swaps
+are left unchanged" also needs (1) that nothing that can write a swap is live before the gate and (2) that a
+refusal ends the process.  A reviewing sub-agent showed both failing for the CLN plugin (the message handler
+and the commands were live before the gate; after a refusal `outer` only logged and kept waiting, so the
+plugin went on accepting swaps on a database it must not touch); repaired in /repo. -/
+
+def gateBefore (d a : String) : Bool :=
+  match startupOrder.find? (·.1 == d) with
+  | none => false
+  | some (_, l) => match l.idxOf? "versionService.SafeUpgrade", l.idxOf? a with
+    | some i, some j => decide (i < j)
+    | _, _ => false
+
+/-- the version gate comes before the peer-message handler and the commands go live: in the CLN plugin before
+    `swapService.Start` (which registers the custom-message handler) and `SetReady` (which unlocks the RPC
+    commands); in the LND daemon before `StartListening` (the message stream; its gRPC server starts later still) -/
+theorem C29_gate_before_serving :
+    gateBefore "cln" "swapService.Start" = true ∧ gateBefore "cln" "lightningPlugin.SetReady" = true
+    ∧ gateBefore "cln" "swapService.RecoverSwaps" = true
+    ∧ gateBefore "lnd" "lndClient.StartListening" = true ∧ gateBefore "lnd" "swapService.RecoverSwaps" = true := by
+  decide
+
+/-- a failed start ends the process in both daemons (the block guarded by the error of `run` returns the error
+    to `main`, which exits / calls Fatal) -/
+theorem C29_refusal_ends_process :
+    startFailureEndsProcess = [("cln", true), ("lnd", true)] := by decide
 
 example : (safeUpgrade "v0.2" (some "v0.1") [.State_ClaimedCsv, .State_WaitCsv]).toOption = none := by decide
 example : (safeUpgrade "v0.2" none [.State_ClaimedCsv]).toOption = some (some "v0.2") := by decide
